@@ -46,6 +46,9 @@ CATALOGUE = [
     ("union", [ARR("a b"), ARR("a", "Int")]),
     ("union", [("int",), ARR("#a *v")]),
     ("tuple", [("int",), ARR("a")]),
+    # first alternative binds an axis and then fails on a later one; the second passes: nothing of the first may stay
+    ("union", [ARR("a 3"), ARR("b 4")]),
+    ("optional", ARR("a 3")),
     # broadcastable variadics: an earlier leaf may WIDEN an existing binding (no new key), a later leaf fails
     ARR("*#v a"),
     ARR("*#v"),
@@ -70,7 +73,7 @@ def required_counters(tier):
         "law.nested": 500,
         "law.bare": 500,
         "bindings_compared": 1000,
-        "L.pep604": 50,
+        "L.pep604": 50, "hostile_values": 16,
     }
 
 
@@ -218,12 +221,57 @@ def run_case(rec, rng, rngkey=None):
         rec.violation("law-nested", desc, f"PyTree[L] -> {got},{b} but PyTree[PyTree[L]] -> {got2},{b2}", mechanism="nested-pytree-differs")
 
 
+class _RaisingNode:
+    def __init__(self, children):
+        self.children = children
+
+
+_hostile_registered = False
+
+
+def hostile_values():
+    """values jax cannot flatten: bare PyTree must still accept them, and a PyTree[L] check on them
+    (whatever it answers or raises) must not leave anything behind"""
+    global _hostile_registered
+    import jax.tree_util as jtu
+
+    if not _hostile_registered:
+        def fl(n):
+            raise RuntimeError("this node cannot be flattened")
+
+        jtu.register_pytree_node(_RaisingNode, fl, lambda a, c: _RaisingNode(c))
+        _hostile_registered = True
+    return [{1: 0, "one": 0}, [1, {2: (3,), "k": 4}], _RaisingNode([1, 2]), (real.np_array((2,)), _RaisingNode([]))]
+
+
+def run_hostile(rec):
+    import jaxtyping
+
+    for idx, x in enumerate(hostile_values()):
+        desc = {"hostile": idx, "value": repr(x)[:80]}
+        rec.case(("hostile", idx), True)
+        rec.count("hostile_values")
+        bare = real.in_block_context(lambda: real.check(x, jaxtyping.PyTree))
+        if bare != "ok":
+            rec.violation("law-bare", desc, f"bare PyTree on {desc['value']}: {bare} (bare PyTree accepts everything)", mechanism="bare-pytree-" + bare.replace(":", "-"))
+        for L in (ARR("a"), ("int",), ("tuple", [ARR("a"), ARR("b")])):
+            T = LT.build(L)
+            real.in_block_context(lambda: real.check(x, jaxtyping.PyTree[T]))
+            # whatever that answered: afterwards a wrong-dtype / wrong-shape leaf must still be rejected
+            after = real.in_block_context(lambda: (real.check([real.np_array((2, 3), "int32")], jaxtyping.PyTree[jaxtyping.Float[np.ndarray, "a"]]), real.check(real.np_array((2, 3)), jaxtyping.Float[np.ndarray, "4"]), real.raw_transcript()))
+            if after != ("no", "no", "\n"):
+                rec.violation("after-unflattenable", desc, f"after checking an unflattenable value against PyTree[{LT.show(L)}], later checks answer {after} instead of ('no','no','')", mechanism="state-left-behind-by-raising-flatten")
+                return
+
+
 def run_shard(rec, seed, shard, tier):
     warnings.filterwarnings("ignore")
     GT.ensure_registered()
     for k in range(CASES[tier]):
         key = f"{seed}/C08/{shard['i']}/{k}"
         run_case(rec, random.Random(key), rngkey=key)
+        if k % 1000 == 500:
+            run_hostile(rec)
     rec.sample({"catalogue": [LT.show(L) for L in CATALOGUE]})
 
 
